@@ -313,6 +313,47 @@ class RoutingMonitor:
     def order_rejected(self, c, order, attrs, exc):
         c.scratch['last_rejection_seq'] = c.seq
 
+    # ---- exits submitted by the framework when the position opens (rows declared in go_long/go_short)
+    def order_exec_begin(self, c, order, before):
+        if before == ACTIVE:
+            self.fill_mark = getattr(self, 'fill_mark', {})
+            self.fill_mark[order.symbol] = len(c.scratch['registry'].recs)
+
+    def open_hook_entered(self, c, strat):
+        self.check_exits_at_open(c, strat)
+
+    def check_exits_at_open(self, c, strat):
+        reg = c.scratch['registry']
+        mark = getattr(self, 'fill_mark', {}).get(strat.symbol)
+        if mark is None:
+            return
+        new = [r for r in list(reg.recs.values())[mark:] if r.symbol == strat.symbol]
+        if not new:
+            return
+        pos = strat.position
+        entry = pos.entry_price
+        c.count('c10_open_time_exits_checked', len(new))
+        for r in new:
+            via = getattr(r.order, 'submitted_via', None)
+            if via not in ('stop-loss', 'take-profit'):
+                self.v(c, 'untagged-exit', f'C10|order-submitted-at-open-is-neither-stop-loss-nor-take-profit|type={r.type}|ro={int(r.reduce_only)}',
+                       {'order': [r.type, r.side, r.qty, r.price, r.reduce_only]})
+                continue
+            if r.reduce_only:
+                continue
+            # a plain order is only what replaces a row that lies on the wrong side of the entry price
+            kind = 'sl' if via == 'stop-loss' else 'tp'
+            rows = [row for row in (strat._decl.get(kind) or []) if abs(row[0]) == abs(r.qty)]
+            long_ = pos.type == 'long' or (pos.type == 'close' and r.side == 'sell')
+            def wrong(pr):
+                if kind == 'sl':
+                    return pr >= entry if long_ else pr <= entry
+                return pr <= entry if long_ else pr >= entry
+            if entry is not None and rows and not any(wrong(pr) for _, pr in rows):
+                self.v(c, 'exit-not-reduce-only', f'C10|declared-{kind}-row-on-its-proper-side-submitted-as-plain-{r.type}-order',
+                       {'rows': rows, 'entry_price': float(entry), 'order': [r.type, r.side, r.qty, r.price]})
+
+
     # ---- should_cancel_entry
     def sce_answer(self, c, strat, ans):
         reg = c.scratch['registry']
